@@ -116,11 +116,11 @@ func VerifHarness_Block_EndPayout() {
 	if verifConfig("evidence") == 1 {
 		// byzantine evidence against P in the same block (composed step)
 		verifBegin(u, H, []types.Pubkey{u.P}, 3)
+		// the dropped validator's accrued reward returns to the pool in EndBlock
+		// and is re-distributed to the present validators before the payout
 		accrued = big.NewInt(0)
 		for _, v := range vals {
-			if !v.IsToDrop() {
-				accrued.Add(accrued, v.GetAccumReward())
-			}
+			accrued.Add(accrued, v.GetAccumReward())
 		}
 	}
 	slashed0 := new(big.Int).Set(st.App.GetTotalSlashed())
